@@ -152,7 +152,7 @@ fn exh_total(tier: Tier) -> (usize, u64) {
     let maxlen = tier.pick(5, 7);
     let mut t = 0u64;
     for l in 1..=maxlen {
-        t += 12u64.pow(l as u32);
+        t += 13u64.pow(l as u32);
     }
     (maxlen, t)
 }
@@ -203,7 +203,7 @@ impl Prop for C02 {
 
     fn exhaustive_desc(tier: Tier) -> String {
         let (maxlen, total) = exh_total(tier);
-        format!("all token sequences of length 1..={} over the 12-token alphabet {{START, 1b, 1b1b1b1b, 00, 0000, 01, 1a, a5, END(0,last start), END(1,last start), END(3,previous start), END(4,last start)}} ({} streams)", maxlen, total)
+        format!("all token sequences of length 1..={} over the 13-token alphabet {{START, 1b, 1b1b1b1b, 00, 0000, 01, 1a, a5, END(0,last start), END(1,last start), END(3,previous start), END(4,last start), END(0xf0,last start)}} ({} streams)", maxlen, total)
     }
 
     fn exhaustive(tier: Tier, shard: usize, nshards: usize, f: &mut dyn FnMut(&Input) -> bool) {
@@ -215,7 +215,7 @@ impl Prop for C02 {
             let mut k = idx;
             let mut len = 1;
             for l in 1..=maxlen {
-                let n = 12u64.pow(l as u32);
+                let n = 13u64.pow(l as u32);
                 if k < n {
                     len = l;
                     break;
